@@ -16,7 +16,11 @@
 //
 // Trace line:  OP ; OUTS ; OBS
 //
-//	OP    H <opts> | U <opts> | UB <opts> K e | SU e | SD e | P e b | X ctx | C
+//	OP    H <opts> | U <opts> | UB <opts> K e | UC <opts> | <opts> | SU e | SD e | P e b | X ctx | C
+//	      UC: two updates: the first dial of update 1 BLOCKS; update 2 is started in a second
+//	      goroutine and is either parked on gme.mu (goroutine stacks) or has returned when the
+//	      dial is released.  Expected outcome: update 1 then update 2 in sequence.  Outputs of
+//	      update 2 follow `W ms` as `V code D n {ep ok}*n`.
 //	      UB: an update whose first DialFunc call BLOCKS (UpdateMultiEndpoints holds gme.mu)
 //	      while the server of the kept endpoint e goes down and comes back (its monitor
 //	      parks in notify with the outage report); then the dial is released.  The line is
@@ -124,8 +128,9 @@ type vgOpts struct {
 }
 
 type vgOp struct {
-	kind string // H U SU SD P X C
+	kind string // H U UB UC SU SD P X C
 	opts *vgOpts
+	opt2 *vgOpts // UC: the options of the second update
 	e    int
 	b    int
 }
@@ -156,6 +161,8 @@ func (o vgOp) String() string {
 		return o.kind + " " + o.opts.String()
 	case "UB":
 		return fmt.Sprintf("UB %s K %d", o.opts.String(), o.e)
+	case "UC":
+		return fmt.Sprintf("UC %s | %s", o.opts.String(), o.opt2.String())
 	case "SU", "SD":
 		return fmt.Sprintf("%s %d", o.kind, o.e)
 	case "P":
@@ -252,6 +259,25 @@ func vgParseOp(line string) (vgOp, bool, error) {
 			return vgOp{}, false, err
 		}
 		return vgOp{kind: t[0], opts: o}, true, nil
+	case "UC":
+		k := -1
+		for i, x := range t {
+			if x == "|" {
+				k = i
+			}
+		}
+		if k < 0 {
+			return vgOp{}, false, errors.New("bad op: " + line)
+		}
+		o1, err := vgParseOpts(t[1:k])
+		if err != nil {
+			return vgOp{}, false, err
+		}
+		o2, err := vgParseOpts(t[k+1:])
+		if err != nil {
+			return vgOp{}, false, err
+		}
+		return vgOp{kind: "UC", opts: o1, opt2: o2}, true, nil
 	case "UB":
 		if len(t) < 4 || t[len(t)-2] != "K" {
 			return vgOp{}, false, errors.New("bad op: " + line)
@@ -321,9 +347,32 @@ var (
 	vgAdmit = map[string]bool{}
 	vgLis   = map[string]*bufconn.Listener{}
 	vgSrv   = map[string]*grpc.Server{}
-	vgGot   []string // endpoints whose server received an RPC
-	vgFails = map[string]bool{}
+	vgGot   []string              // endpoints whose server received an RPC
+	vgCalls = map[int64]*vgCall{} // the New/Update invocation running in a goroutine
 )
+
+// one invocation of NewGCPMultiEndpoint / UpdateMultiEndpoints: the dial failures injected
+// into it and its dial log (DialFunc runs in the goroutine of the update that dials)
+type vgCall struct {
+	fails map[string]bool
+	outD  []string
+}
+
+var vgOrphan = &vgCall{fails: map[string]bool{}}
+
+func vgGid() int64 {
+	var buf [64]byte
+	n := runtime.Stack(buf[:], false)
+	f := strings.Fields(string(buf[:n]))
+	if len(f) < 2 {
+		return -1
+	}
+	id, err := strconv.ParseInt(f[1], 10, 64)
+	if err != nil {
+		return -1
+	}
+	return id
+}
 
 var vgDialErr = errors.New("vg: injected dial failure")
 
@@ -435,6 +484,7 @@ type vgRun struct {
 	base   int // monitor goroutines alive before this history
 	def    int
 	outD   []string
+	out2   string // UC: outputs of the second update
 	waited int64
 	nlines int
 	// blocked dial (UB): the next DialFunc call signals `blocked` and waits for `release`
@@ -444,28 +494,41 @@ type vgRun struct {
 }
 
 func (r *vgRun) dialFunc(ctx context.Context, target string, dopts ...grpc.DialOption) (*grpc.ClientConn, error) {
+	gid := vgGid()
+	vgMu.Lock()
+	c := vgCalls[gid]
+	if c == nil {
+		c = vgOrphan
+	}
 	d := &vgDial{id: len(r.dials), ep: target}
 	r.dials = append(r.dials, d)
-	vgMu.Lock()
-	fail := vgFails[target]
+	fail := c.fails[target]
 	vgAdmit[target] = false
+	block := r.blockNext
+	r.blockNext = false
 	vgMu.Unlock()
-	if r.blockNext {
-		r.blockNext = false
+	if block {
 		r.blocked <- struct{}{}
 		<-r.release
 	}
+	logDial := func(ok int) {
+		vgMu.Lock()
+		c.outD = append(c.outD, fmt.Sprintf("%d %d", vgEPID(target), ok))
+		vgMu.Unlock()
+	}
 	if fail {
-		r.outD = append(r.outD, fmt.Sprintf("%d 0", vgEPID(target)))
+		logDial(0)
 		return nil, vgDialErr
 	}
 	conn, err := grpc.DialContext(ctx, "passthrough:///"+target, dopts...)
 	if err != nil {
-		r.outD = append(r.outD, fmt.Sprintf("%d 0", vgEPID(target)))
+		logDial(0)
 		return nil, err
 	}
+	vgMu.Lock()
 	d.conn = conn
-	r.outD = append(r.outD, fmt.Sprintf("%d 1", vgEPID(target)))
+	vgMu.Unlock()
+	logDial(1)
 	return conn, nil
 }
 
@@ -497,12 +560,6 @@ func (r *vgRun) makeOpts(o *vgOpts) *GCPMultiEndpointOptions {
 			SwitchingDelay:  time.Duration(me.d),
 		}
 	}
-	vgMu.Lock()
-	vgFails = map[string]bool{}
-	for _, e := range o.fails {
-		vgFails[vgEPName(e)] = true
-	}
-	vgMu.Unlock()
 	return &GCPMultiEndpointOptions{MultiEndpoints: m, Default: vgMEName(o.def), DialFunc: r.dialFunc}
 }
 
@@ -678,8 +735,9 @@ func (r *vgRun) emit(o vgOp, code int, call int) {
 	for _, d := range r.outD {
 		fmt.Fprintf(r.w, " %s", d)
 	}
-	fmt.Fprintf(r.w, " R %d W %d ; %s\n", call, r.waited, r.observe())
-	r.outD = r.outD[:0]
+	fmt.Fprintf(r.w, " R %d W %d%s ; %s\n", call, r.waited, r.out2, r.observe())
+	r.outD = nil
+	r.out2 = ""
 	r.waited = 0
 	r.nlines++
 }
@@ -761,12 +819,26 @@ func (r *vgRun) admitNew() {
 	}
 }
 
-func (r *vgRun) update(o vgOp) (code int) {
+// runs NewGCPMultiEndpoint (H) / UpdateMultiEndpoints in the calling goroutine; returns the
+// error code and the dial log of this invocation
+func (r *vgRun) update(o vgOp) (code int, dials []string) {
 	opts := r.makeOpts(o.opts)
+	c := &vgCall{fails: map[string]bool{}}
+	for _, e := range o.opts.fails {
+		c.fails[vgEPName(e)] = true
+	}
+	gid := vgGid()
+	vgMu.Lock()
+	vgCalls[gid] = c
+	vgMu.Unlock()
 	defer func() {
 		if recover() != nil {
 			code = 9
 		}
+		vgMu.Lock()
+		delete(vgCalls, gid)
+		dials = c.outD
+		vgMu.Unlock()
 	}()
 	if o.kind == "H" {
 		r.def = o.opts.def
@@ -774,9 +846,82 @@ func (r *vgRun) update(o vgOp) (code int) {
 		if err == nil {
 			r.gme = g
 		}
-		return vgErrCode(err)
+		return vgErrCode(err), nil
 	}
-	return vgErrCode(r.gme.UpdateMultiEndpoints(opts))
+	return vgErrCode(r.gme.UpdateMultiEndpoints(opts)), nil
+}
+
+type vgRes struct {
+	code  int
+	dials []string
+}
+
+// some goroutine is inside UpdateMultiEndpoints waiting for the write lock of gme.mu
+func vgUpdateParked() bool {
+	for _, g := range vgStacks() {
+		if strings.Contains(g, ".UpdateMultiEndpoints") && strings.Contains(g, "(*RWMutex).Lock") {
+			return true
+		}
+	}
+	return false
+}
+
+// UC: update 1 with a blocked dial, update 2 arriving meanwhile from another goroutine
+func (r *vgRun) updateConcurrent(o vgOp) {
+	r.blocked = make(chan struct{}, 1)
+	r.release = make(chan struct{})
+	vgMu.Lock()
+	r.blockNext = true
+	vgMu.Unlock()
+	d1 := make(chan vgRes, 1)
+	d2 := make(chan vgRes, 1)
+	go func() {
+		c, d := r.update(vgOp{kind: "U", opts: o.opts})
+		d1 <- vgRes{c, d}
+	}()
+	var r1, r2 vgRes
+	select {
+	case r1 = <-d1: // no dial: nothing to overlap with; plain sequence
+		vgMu.Lock()
+		r.blockNext = false
+		vgMu.Unlock()
+		c, d := r.update(vgOp{kind: "U", opts: o.opt2})
+		r2 = vgRes{c, d}
+	case <-r.blocked:
+		go func() {
+			c, d := r.update(vgOp{kind: "U", opts: o.opt2})
+			d2 <- vgRes{c, d}
+		}()
+		t0 := time.Now()
+		got2, parked := false, false
+		for time.Since(t0) < time.Second && !got2 && !parked {
+			select {
+			case r2 = <-d2:
+				got2 = true
+			default:
+				if vgUpdateParked() {
+					parked = true
+				} else {
+					time.Sleep(200 * time.Microsecond)
+				}
+			}
+		}
+		r.waited = int64(time.Since(t0) / time.Millisecond)
+		close(r.release)
+		r1 = <-d1
+		if !got2 {
+			r2 = <-d2
+		}
+	}
+	r.outD = r1.dials
+	var sb strings.Builder
+	fmt.Fprintf(&sb, " V %d D %d", r2.code, len(r2.dials))
+	for _, d := range r2.dials {
+		fmt.Fprintf(&sb, " %s", d)
+	}
+	r.out2 = sb.String()
+	r.emit(o, r1.code, 0)
+	r.admitNew()
 }
 
 // UB: update with a blocked dial and a down/up flap of the kept endpoint o.e while gme.mu is held
@@ -789,13 +934,18 @@ func (r *vgRun) updateBlocked(o vgOp) {
 	flap := mc != nil && up && mc.conn.GetState() == connectivity.Ready
 	r.blocked = make(chan struct{}, 1)
 	r.release = make(chan struct{})
+	vgMu.Lock()
 	r.blockNext = true
-	done := make(chan int, 1)
-	go func() { done <- r.update(vgOp{kind: "U", opts: o.opts}) }()
-	code := -1
+	vgMu.Unlock()
+	done := make(chan vgRes, 1)
+	go func() {
+		c, d := r.update(vgOp{kind: "U", opts: o.opts})
+		done <- vgRes{c, d}
+	}()
+	var res vgRes
 	flapped := false
 	select {
-	case code = <-done: // no dial was needed (or the options were rejected): nothing held the lock
+	case res = <-done: // no dial was needed (or the options were rejected): nothing held the lock
 	case <-r.blocked:
 		if flap {
 			flapped = true
@@ -818,9 +968,13 @@ func (r *vgRun) updateBlocked(o vgOp) {
 			}
 		}
 		close(r.release)
-		code = <-done
+		res = <-done
 	}
+	vgMu.Lock()
 	r.blockNext = false
+	vgMu.Unlock()
+	code := res.code
+	r.outD = res.dials
 	if flapped {
 		// "follows within bounded time": the monitors are quiescent and every MultiEndpoint
 		// containing the endpoint knows the final readiness of its pool
@@ -889,7 +1043,8 @@ func (r *vgRun) runHistory(h []vgOp) {
 			if i != 0 {
 				return
 			}
-			code := r.update(o)
+			code, dials := r.update(o)
+			r.outD = dials
 			r.emit(o, code, 0)
 			if r.gme == nil {
 				return
@@ -899,7 +1054,8 @@ func (r *vgRun) runHistory(h []vgOp) {
 			if r.gme == nil {
 				return
 			}
-			code := r.update(o)
+			code, dials := r.update(o)
+			r.outD = dials
 			r.emit(o, code, 0)
 			r.admitNew()
 		case "UB":
@@ -907,6 +1063,11 @@ func (r *vgRun) runHistory(h []vgOp) {
 				return
 			}
 			r.updateBlocked(o)
+		case "UC":
+			if r.gme == nil || r.closed {
+				return
+			}
+			r.updateConcurrent(o)
 		case "SU":
 			ep := vgEPName(o.e)
 			r.emit(o, 0, 0)
@@ -1156,6 +1317,15 @@ func vgGenHistory(g *vgRng, maxOps int, livePct int) []vgOp {
 			o := vgAddFresh(g, prev)
 			h = append(h, vgOp{kind: "UB", opts: o, e: cands[g.intn(len(cands))]})
 			prev = o
+		case x >= 92 && prev != nil:
+			// update 2 arrives while the first dial of update 1 blocks
+			o1 := vgAddFresh(g, prev)
+			o2 := vgGenOpts(g, o1, nEP)
+			h = append(h, vgOp{kind: "UC", opts: o1, opt2: o2})
+			prev = o1
+			if vgValid(o2) && len(o2.fails) == 0 {
+				prev = o2
+			}
 		case live && x < 60:
 			c := vgProbes[g.intn(len(vgProbes))]
 			h = append(h, vgOp{kind: "X", e: c})
@@ -1262,6 +1432,54 @@ func vgGenFlapScenario(g *vgRng) []vgOp {
 	return h
 }
 
+// dedicated scenario: update 1 keeps/extends the configuration and blocks in its dial; update 2
+// (arriving meanwhile) replaces, shrinks, renames or breaks it
+func vgGenConcScenario(g *vgRng) []vgOp {
+	nEP := 3 + g.intn(3)
+	var first *vgOpts
+	for first == nil || !vgValid(first) || len(first.fails) > 0 {
+		first = vgGenOpts(g, nil, nEP)
+	}
+	h := []vgOp{{kind: "H", opts: first}}
+	prev := first
+	rounds := 1 + g.intn(3)
+	for i := 0; i < rounds; i++ {
+		o1 := vgAddFresh(g, prev)
+		var o2 *vgOpts
+		switch g.intn(4) {
+		case 0: // drop everything update 1 keeps: one MultiEndpoint (same name as the default) on a new endpoint
+			f := 1
+			used := map[int]bool{}
+			for _, e := range vgMentioned(o1) {
+				used[e] = true
+			}
+			for used[f] {
+				f++
+			}
+			o2 = &vgOpts{def: o1.def, mes: []vgME{{name: o1.def, eps: []int{f}}}}
+		case 1: // back to the previous options (drops the endpoint update 1 is dialling)
+			o2 = vgCopyOpts(prev)
+		default:
+			o2 = vgGenOpts(g, o1, nEP)
+		}
+		h = append(h, vgOp{kind: "UC", opts: o1, opt2: o2})
+		prev = o1
+		if vgValid(o2) && len(o2.fails) == 0 {
+			prev = o2
+		}
+		if g.pct(30) {
+			h = append(h, vgOp{kind: "U", opts: vgGenOpts(g, prev, nEP)})
+			if o := h[len(h)-1].opts; vgValid(o) && len(o.fails) == 0 {
+				prev = o
+			}
+		}
+	}
+	if g.pct(75) {
+		h = append(h, vgOp{kind: "C"})
+	}
+	return h
+}
+
 func vgEnvInt(name string, def int) int {
 	if v := os.Getenv(name); v != "" {
 		if n, err := strconv.Atoi(v); err == nil {
@@ -1313,6 +1531,10 @@ func TestVerifGME(t *testing.T) {
 	nflap := vgEnvInt("VERIF_FLAP", 0)
 	for i := 0; i < nflap; i++ {
 		r.runHistory(vgGenFlapScenario(g))
+	}
+	nconc := vgEnvInt("VERIF_CONC", 0)
+	for i := 0; i < nconc; i++ {
+		r.runHistory(vgGenConcScenario(g))
 	}
 	for i := 0; i < n; i++ {
 		r.runHistory(vgGenHistory(g, maxOps, live))
